@@ -7,6 +7,7 @@ import (
 	"log"
 	"math"
 	"testing"
+	"time"
 
 	"github.com/evolbioinfo/goalign/models"
 	"github.com/evolbioinfo/goalign/models/dna"
@@ -191,6 +192,12 @@ func genDNA(t *rapid.T) mCase {
 	var c mCase
 	// JC has no parameter: one case in twelve
 	c.Model = rapid.SampledFrom([]string{"gtr", "tn93", "f81", "f84", "k2p", "gtr", "tn93", "f81", "f84", "k2p", "gtr", "tn93", "jc"}).Draw(t, "model")
+	fillDNA(t, &c)
+	return c
+}
+
+// fillDNA draws the parameters, branch lengths and split of a nucleotide model
+func fillDNA(t *rapid.T, c *mCase) {
 	regime := "-"
 	switch c.Model {
 	case "k2p":
@@ -248,12 +255,17 @@ func genDNA(t *rapid.T) mCase {
 	c.Regime = regime
 	c.Ts = drawTs(t)
 	c.Split = rapid.SampledFrom([]float64{0.5, 0.25, 0.001, 0.999, 0.37}).Draw(t, "split")
-	return c
 }
 
 func genProt(t *rapid.T) mCase {
 	var c mCase
 	c.Model = rapid.SampledFrom(protModels).Draw(t, "model")
+	fillProt(t, &c)
+	return c
+}
+
+// fillProt draws the frequencies, branch lengths and split of a protein model
+func fillProt(t *rapid.T, c *mCase) {
 	switch rapid.IntRange(0, 3).Draw(t, "freq") {
 	case 0, 1:
 		c.Regime = "model-frequencies"
@@ -269,7 +281,6 @@ func genProt(t *rapid.T) mCase {
 	}
 	c.Ts = drawTs(t)
 	c.Split = rapid.SampledFrom([]float64{0.5, 0.25, 0.001, 0.999, 0.37}).Draw(t, "split")
-	return c
 }
 
 // ---- oracle: the textbook rate matrix of each model --------------------------------------------------
@@ -394,42 +405,62 @@ func textbookQ(c mCase) (qs []matrix, pi []float64, err error) {
 
 // ---- the model under test ---------------------------------------------------------------------------
 
-func buildModel(c mCase) (models.Model, error) {
-	switch c.Model {
+// newModelObject: the constructor only
+func newModelObject(name string) (models.Model, error) {
+	switch name {
 	case "jc":
-		m := dna.NewJCModel()
-		return m, m.InitModel()
+		return dna.NewJCModel(), nil
 	case "k2p":
-		m := dna.NewK2PModel()
-		m.InitModel(c.Kappa)
-		return m, nil
+		return dna.NewK2PModel(), nil
 	case "f81":
-		m := dna.NewF81Model()
-		return m, m.InitModel(c.Pi[0], c.Pi[1], c.Pi[2], c.Pi[3])
+		return dna.NewF81Model(), nil
 	case "f84":
-		m := dna.NewF84Model()
-		m.InitModel(c.Kappa, c.Pi[0], c.Pi[1], c.Pi[2], c.Pi[3])
-		return m, nil
+		return dna.NewF84Model(), nil
 	case "tn93":
-		m := dna.NewTN93Model()
-		return m, m.InitModel(c.Kappa1, c.Kappa2, c.Pi[0], c.Pi[1], c.Pi[2], c.Pi[3])
+		return dna.NewTN93Model(), nil
 	case "gtr":
-		m := dna.NewGTRModel()
-		// argument order documented in gtr.go: d=AC, f=AG, b=AT, e=CG, a=CT, c=GT
-		return m, m.InitModel(c.Rates[0], c.Rates[1], c.Rates[2], c.Rates[3], c.Rates[4], c.Rates[5], c.Pi[0], c.Pi[1], c.Pi[2], c.Pi[3])
+		return dna.NewGTRModel(), nil
 	}
-	if code := protCode(c.Model); code >= 0 {
-		m, err := protein.NewProtModel(code, false, 0)
-		if err != nil {
-			return nil, err
-		}
+	if code := protCode(name); code >= 0 {
+		return protein.NewProtModel(code, false, 0)
+	}
+	return nil, fmt.Errorf("harness: unknown model %q", name)
+}
+
+// initModel: InitModel of the concrete type with the parameters of c
+func initModel(mod models.Model, c mCase) error {
+	switch m := mod.(type) {
+	case *dna.JCModel:
+		return m.InitModel()
+	case *dna.K2PModel:
+		m.InitModel(c.Kappa)
+		return nil
+	case *dna.F81Model:
+		return m.InitModel(c.Pi[0], c.Pi[1], c.Pi[2], c.Pi[3])
+	case *dna.F84Model:
+		m.InitModel(c.Kappa, c.Pi[0], c.Pi[1], c.Pi[2], c.Pi[3])
+		return nil
+	case *dna.TN93Model:
+		return m.InitModel(c.Kappa1, c.Kappa2, c.Pi[0], c.Pi[1], c.Pi[2], c.Pi[3])
+	case *dna.GTRModel:
+		// argument order documented in gtr.go: d=AC, f=AG, b=AT, e=CG, a=CT, c=GT
+		return m.InitModel(c.Rates[0], c.Rates[1], c.Rates[2], c.Rates[3], c.Rates[4], c.Rates[5], c.Pi[0], c.Pi[1], c.Pi[2], c.Pi[3])
+	case *protein.ProtModel:
 		var user []float64
 		if c.Pi != nil {
 			user = append([]float64{}, c.Pi...)
 		}
-		return m, m.InitModel(user)
+		return m.InitModel(user)
 	}
-	return nil, fmt.Errorf("harness: unknown model %q", c.Model)
+	return fmt.Errorf("harness: unknown model type %T", mod)
+}
+
+func buildModel(c mCase) (models.Model, error) {
+	m, err := newModelObject(c.Model)
+	if err != nil {
+		return nil, err
+	}
+	return m, initModel(m, c)
 }
 
 // observed P(t) through a fresh NewPij
@@ -560,17 +591,36 @@ func checkModel(c mCase) (o pbt.Outcome, err error) {
 		o.Skip = true
 		return o, nil
 	}
-	qs, pi, err := textbookQ(c)
-	if err != nil {
-		return o, err
-	}
 	m, e := buildModel(c)
 	if e != nil {
 		return o, fmt.Errorf("%s: model initialisation fails on valid parameters: %v", c.Model, e)
 	}
+	_, err = checkOn(m, c, &o)
+	return o, err
+}
+
+// checkOn applies every clause of the statement to the model object m, which has been initialised
+// with the parameters of c; it returns the matrices observed at c.Ts
+func checkOn(m models.Model, c mCase, op *pbt.Outcome) (seen []matrix, err error) {
+	o := pbt.Outcome{}
+	defer func() {
+		op.Classes = append(op.Classes, o.Classes...)
+		op.Ambiguous += o.Ambiguous
+		op.Ill += o.Ill
+		op.NonTrivial = op.NonTrivial || o.NonTrivial
+	}()
+	seen, err = checkClauses(m, c, &o)
+	return
+}
+
+func checkClauses(m models.Model, c mCase, o *pbt.Outcome) (seen []matrix, err error) {
+	qs, pi, err := textbookQ(c)
+	if err != nil {
+		return nil, err
+	}
 	n := m.NState()
 	if n != len(pi) {
-		return o, fmt.Errorf("%s: NState() = %d, want %d", c.Model, n, len(pi))
+		return nil, fmt.Errorf("%s: NState() = %d, want %d", c.Model, n, len(pi))
 	}
 	if len(qs) > 1 {
 		o.Ambiguous++
@@ -584,43 +634,44 @@ func checkModel(c mCase) (o pbt.Outcome, err error) {
 	// P(0) = I
 	p0, e := observe(m, 0)
 	if e != nil {
-		return o, fmt.Errorf("%s: NewPij(0) fails: %v", c.Model, e)
+		return nil, fmt.Errorf("%s: NewPij(0) fails: %v", c.Model, e)
 	}
 	if d, at := maxDiff(p0, identity(n)); d > tol {
-		return o, fmt.Errorf("%s: P(0) is not the identity: entry (%d,%d) = %.12g", c.Model, at[0], at[1], p0[at[0]][at[1]])
+		return nil, fmt.Errorf("%s: P(0) is not the identity: entry (%d,%d) = %.12g", c.Model, at[0], at[1], p0[at[0]][at[1]])
 	}
 
 	// one Pij object re-used over all branch lengths (SetLength), besides the fresh ones
 	reused, e := models.NewPij(m, c.Ts[len(c.Ts)-1])
 	if e != nil {
-		return o, fmt.Errorf("%s: NewPij fails: %v", c.Model, e)
+		return nil, fmt.Errorf("%s: NewPij fails: %v", c.Model, e)
 	}
 
 	ts := append([]float64{}, c.Ts...)
 	for k, t := range ts {
 		p, e := observe(m, t)
 		if e != nil {
-			return o, fmt.Errorf("%s: NewPij(%g) fails: %v", c.Model, t, e)
+			return nil, fmt.Errorf("%s: NewPij(%g) fails: %v", c.Model, t, e)
 		}
+		seen = append(seen, p)
 		// stochastic
 		for i := 0; i < n; i++ {
 			sum := 0.0
 			for j := 0; j < n; j++ {
 				v := p[i][j]
 				if math.IsNaN(v) || v < 0 || v > 1+tol {
-					return o, fmt.Errorf("%s t=%g: P[%d][%d] = %.12g is not a probability", c.Model, t, i, j, v)
+					return nil, fmt.Errorf("%s t=%g: P[%d][%d] = %.12g is not a probability", c.Model, t, i, j, v)
 				}
 				sum += v
 			}
 			if math.Abs(sum-1) > tol {
-				return o, fmt.Errorf("%s t=%g: row %d sums to %.12g", c.Model, t, i, sum)
+				return nil, fmt.Errorf("%s t=%g: row %d sums to %.12g", c.Model, t, i, sum)
 			}
 		}
 		// detailed balance
 		for i := 0; i < n; i++ {
 			for j := i + 1; j < n; j++ {
 				if d := math.Abs(pi[i]*p[i][j] - pi[j]*p[j][i]); d > tol {
-					return o, fmt.Errorf("%s t=%g: detailed balance broken at (%d,%d): pi_i P_ij = %.12g, pi_j P_ji = %.12g", c.Model, t, i, j, pi[i]*p[i][j], pi[j]*p[j][i])
+					return nil, fmt.Errorf("%s t=%g: detailed balance broken at (%d,%d): pi_i P_ij = %.12g, pi_j P_ji = %.12g", c.Model, t, i, j, pi[i]*p[i][j], pi[j]*p[j][i])
 				}
 			}
 		}
@@ -641,14 +692,14 @@ func checkModel(c mCase) (o pbt.Outcome, err error) {
 			continue
 		}
 		if best > tol {
-			return o, fmt.Errorf("%s t=%g: P[%d][%d] = %.12g, exp(Qt) of the textbook rate matrix gives %.12g (difference %.3g)", c.Model, t, bestAt[0], bestAt[1], p[bestAt[0]][bestAt[1]], bestWant, best)
+			return nil, fmt.Errorf("%s t=%g: P[%d][%d] = %.12g, exp(Qt) of the textbook rate matrix gives %.12g (difference %.3g)", c.Model, t, bestAt[0], bestAt[1], p[bestAt[0]][bestAt[1]], bestWant, best)
 		}
 		// the re-used object gives the same matrix after SetLength
 		if e := reused.SetLength(t); e != nil {
-			return o, fmt.Errorf("%s: SetLength(%g) fails: %v", c.Model, t, e)
+			return nil, fmt.Errorf("%s: SetLength(%g) fails: %v", c.Model, t, e)
 		}
 		if d, at := maxDiff(read(reused, n), want); d > tol {
-			return o, fmt.Errorf("%s t=%g: after SetLength on a Pij object used before at another length, P[%d][%d] = %.12g, exp(Qt) gives %.12g", c.Model, t, at[0], at[1], reused.Pij(at[0], at[1]), want[at[0]][at[1]])
+			return nil, fmt.Errorf("%s t=%g: after SetLength on a Pij object used before at another length, P[%d][%d] = %.12g, exp(Qt) gives %.12g", c.Model, t, at[0], at[1], reused.Pij(at[0], at[1]), want[at[0]][at[1]])
 		}
 		// semigroup
 		s := c.Split * t
@@ -656,16 +707,16 @@ func checkModel(c mCase) (o pbt.Outcome, err error) {
 		ps, e1 := observe(m, s)
 		pu, e2 := observe(m, u)
 		if e1 != nil || e2 != nil {
-			return o, fmt.Errorf("%s: NewPij fails: %v %v", c.Model, e1, e2)
+			return nil, fmt.Errorf("%s: NewPij fails: %v %v", c.Model, e1, e2)
 		}
 		if d, at := maxDiff(mul(ps, pu), p); d > tol {
-			return o, fmt.Errorf("%s: P(%g)P(%g) differs from P(%g) at (%d,%d) by %.3g", c.Model, s, u, t, at[0], at[1], d)
+			return nil, fmt.Errorf("%s: P(%g)P(%g) differs from P(%g) at (%d,%d) by %.3g", c.Model, s, u, t, at[0], at[1], d)
 		}
 		// analytical against the eigen system, assembled here
 		if analytical {
 			val, left, right, e := m.Eigens()
 			if e != nil {
-				return o, fmt.Errorf("%s: Eigens() fails: %v", c.Model, e)
+				return nil, fmt.Errorf("%s: Eigens() fails: %v", c.Model, e)
 			}
 			for i := 0; i < n; i++ {
 				for j := 0; j < n; j++ {
@@ -674,7 +725,7 @@ func checkModel(c mCase) (o pbt.Outcome, err error) {
 						v += right.At(i, x) * math.Exp(val[x]*t) * left.At(x, j)
 					}
 					if math.Abs(v-p[i][j]) > tol {
-						return o, fmt.Errorf("%s t=%g: analytical P[%d][%d] = %.12g, R exp(Dt) L from Eigens() = %.12g", c.Model, t, i, j, p[i][j], v)
+						return nil, fmt.Errorf("%s t=%g: analytical P[%d][%d] = %.12g, R exp(Dt) L from Eigens() = %.12g", c.Model, t, i, j, p[i][j], v)
 					}
 				}
 			}
@@ -702,12 +753,12 @@ func checkModel(c mCase) (o pbt.Outcome, err error) {
 	if conv {
 		p, e := observe(m, tMax)
 		if e != nil {
-			return o, fmt.Errorf("%s: NewPij(100) fails: %v", c.Model, e)
+			return nil, fmt.Errorf("%s: NewPij(100) fails: %v", c.Model, e)
 		}
 		for i := 0; i < n; i++ {
 			for j := 0; j < n; j++ {
 				if math.Abs(p[i][j]-pi[j]) > tol {
-					return o, fmt.Errorf("%s: P(100)[%d][%d] = %.12g has not converged to pi_%d = %.12g although exp(Q 100) has", c.Model, i, j, p[i][j], j, pi[j])
+					return nil, fmt.Errorf("%s: P(100)[%d][%d] = %.12g has not converged to pi_%d = %.12g although exp(Q 100) has", c.Model, i, j, p[i][j], j, pi[j])
 				}
 			}
 		}
@@ -719,7 +770,7 @@ func checkModel(c mCase) (o pbt.Outcome, err error) {
 	o.NonTrivial = nonTrivial(c)
 	o.Class("model=%s", c.Model)
 	o.Class("%s: %s", c.Model, c.Regime)
-	return o, nil
+	return seen, nil
 }
 
 func oracleSane(w matrix) bool {
@@ -740,6 +791,282 @@ func oracleSane(w matrix) bool {
 
 func TestNucleotide(t *testing.T) { pbt.Run(t, genDNA, checkModel) }
 func TestProtein(t *testing.T)    { pbt.Run(t, genProt, checkModel) }
+
+// ---- one model object initialised several times ------------------------------------------------------------
+//
+// The pinned TestK2PPij builds the Pij before InitModel and calls InitModel again for every kappa: a
+// model object is a container of parameters that InitModel replaces. After InitModel(B) every clause
+// must hold for B whatever the object was used for before; going back to A must give the first matrices
+// again.
+//
+// Pij objects created before the re-initialisation: models.Pij keeps the matrix of its current length
+// and SetLength recomputes it only when the length changes (model.go: `if pij.length != l`); nothing
+// is said about an object whose model changed underneath. Its values at the unchanged length are
+// therefore NOT judged; after SetLength to another length (what TestK2PPij does) it must give the
+// matrix of the new parameters.
+//
+// Protein models: a second InitModel on a ProtModel gives non-finite matrices on the tree as found
+// (the exchangeability matrix is turned into the rate matrix in place; props/c18/FINDINGS.md). While
+// KNOWN_FINDINGS.txt lists the key protein-reinit the second and third rounds are made with fresh
+// objects of the same matrix instead (counted under excluded_known); when it is not listed the same
+// object is re-initialised and judged like the nucleotide models.
+
+const keyProtReinit = "protein-reinit"
+
+type reinitCase struct {
+	A mCase `json:"a"`
+	B mCase `json:"b"`
+}
+
+func genReinit(t *rapid.T) reinitCase {
+	var c reinitCase
+	if rapid.IntRange(0, 5).Draw(t, "prot") == 0 {
+		c.A = genProt(t)
+		c.B = mCase{Model: c.A.Model}
+		fillProt(t, &c.B)
+		return c
+	}
+	c.A = genDNA(t)
+	c.B = mCase{Model: c.A.Model}
+	fillDNA(t, &c.B)
+	// half of the time only a part of the parameter vector changes
+	switch rapid.IntRange(0, 3).Draw(t, "partial") {
+	case 0: // same frequencies, other rates
+		c.B.Pi = c.A.Pi
+	case 1: // same rates, other frequencies
+		c.B.Kappa, c.B.Kappa1, c.B.Kappa2, c.B.Rates = c.A.Kappa, c.A.Kappa1, c.A.Kappa2, c.A.Rates
+	}
+	return c
+}
+
+func sameParams(a, b mCase) bool {
+	eq := func(x, y []float64) bool {
+		if len(x) != len(y) {
+			return false
+		}
+		for i := range x {
+			if x[i] != y[i] {
+				return false
+			}
+		}
+		return true
+	}
+	return a.Kappa == b.Kappa && a.Kappa1 == b.Kappa1 && a.Kappa2 == b.Kappa2 && eq(a.Rates, b.Rates) && eq(a.Pi, b.Pi)
+}
+
+func checkReinit(c reinitCase) (o pbt.Outcome, err error) {
+	if c.A.Model != c.B.Model || !domainOK(c.A) || !domainOK(c.B) {
+		o.Skip = true
+		return o, nil
+	}
+	name := c.A.Model
+	if isProt(name) {
+		return checkReinitProtein(c)
+	}
+	m, e := newModelObject(name)
+	if e != nil {
+		return o, fmt.Errorf("harness: %v", e)
+	}
+	n := m.NState()
+	// a Pij built before any InitModel, as TestK2PPij does; only for the models whose constructor sets
+	// default parameters (F81, TN93 and GTR have no eigen system before InitModel)
+	var early *models.Pij
+	if name == "jc" || name == "k2p" || name == "f84" {
+		if early, e = models.NewPij(m, 1.0); e != nil {
+			return o, fmt.Errorf("%s: NewPij on a model with its default parameters: %v", name, e)
+		}
+	}
+	// round 1: A
+	if e = initModel(m, c.A); e != nil {
+		return o, fmt.Errorf("%s: InitModel(A) fails: %v", name, e)
+	}
+	firstA, err := checkOn(m, c.A, &o)
+	if err != nil {
+		return o, fmt.Errorf("round 1 (first parameters): %v", err)
+	}
+	// two Pij objects alive across the re-initialisation
+	tOld := c.A.Ts[len(c.A.Ts)/2]
+	old1, e1 := models.NewPij(m, tOld)
+	old2, e2 := models.NewPij(m, c.A.Ts[0])
+	if e1 != nil || e2 != nil {
+		return o, fmt.Errorf("%s: NewPij fails: %v %v", name, e1, e2)
+	}
+	// round 2: B on the same object
+	if e = initModel(m, c.B); e != nil {
+		return o, fmt.Errorf("%s: InitModel(B) on a model already initialised and used fails: %v", name, e)
+	}
+	if _, err = checkOn(m, c.B, &o); err != nil {
+		return o, fmt.Errorf("round 2 (model object already initialised with %s and used, then InitModel with the second parameters): %v", paramString(c.A), err)
+	}
+	// the objects created before, moved to another length
+	qsB, _, err := textbookQ(c.B)
+	if err != nil {
+		return o, err
+	}
+	for k, old := range []*models.Pij{early, old1, old2} {
+		if old == nil {
+			continue
+		}
+		for _, t := range c.B.Ts {
+			if t == tOld || t == c.A.Ts[0] || t == 1.0 {
+				continue // unchanged length: not judged (see above)
+			}
+			if e = old.SetLength(t); e != nil {
+				return o, fmt.Errorf("%s: SetLength fails: %v", name, e)
+			}
+			best := math.Inf(1)
+			var at [2]int
+			for _, q := range qsB {
+				if d, a := maxDiff(read(old, n), expm(q, t)); d < best {
+					best, at = d, a
+				}
+			}
+			if best > tol {
+				return o, fmt.Errorf("%s: a Pij object created before the model was re-initialised (object %d), moved to t=%g: P[%d][%d] = %.12g differs from exp(Qt) of the second parameters by %.3g", name, k, t, at[0], at[1], old.Pij(at[0], at[1]), best)
+			}
+		}
+	}
+	// round 3: back to A
+	if e = initModel(m, c.A); e != nil {
+		return o, fmt.Errorf("%s: InitModel(A) again fails: %v", name, e)
+	}
+	for k, t := range c.A.Ts {
+		p, e := observe(m, t)
+		if e != nil {
+			return o, fmt.Errorf("%s: NewPij fails: %v", name, e)
+		}
+		if d, at := maxDiff(p, firstA[k]); d > 1e-12 {
+			return o, fmt.Errorf("%s: back to the first parameters, t=%g: P[%d][%d] = %.15g, it was %.15g the first time", name, t, at[0], at[1], p[at[0]][at[1]], firstA[k][at[0]][at[1]])
+		}
+	}
+	o.NonTrivial = !sameParams(c.A, c.B) && (nonTrivial(c.A) || nonTrivial(c.B))
+	switch {
+	case sameParams(c.A, c.B):
+		o.Class("re-initialised with the same parameters")
+	case len(c.A.Pi) > 0 && sameParams(mCase{Pi: c.A.Pi}, mCase{Pi: c.B.Pi}):
+		o.Class("re-initialised: same frequencies, other rates")
+	case sameParams(mCase{Kappa: c.A.Kappa, Kappa1: c.A.Kappa1, Kappa2: c.A.Kappa2, Rates: c.A.Rates}, mCase{Kappa: c.B.Kappa, Kappa1: c.B.Kappa1, Kappa2: c.B.Kappa2, Rates: c.B.Rates}):
+		o.Class("re-initialised: same rates, other frequencies")
+	default:
+		o.Class("re-initialised: everything changes")
+	}
+	return o, nil
+}
+
+func paramString(c mCase) string {
+	return fmt.Sprintf("kappa=%g kappa1=%g kappa2=%g rates=%v pi=%v", c.Kappa, c.Kappa1, c.Kappa2, c.Rates, c.Pi)
+}
+
+// initGuarded: InitModel on an object that was initialised before; on the tree as found the
+// decomposition of the non-finite matrix sometimes never returns (gonum Dgebal), hence the bounded wait
+// (10 s for a call that takes 0.1 ms)
+func initGuarded(m models.Model, c mCase) error {
+	done := make(chan error, 1)
+	go func() {
+		defer func() {
+			if r := recover(); r != nil {
+				done <- fmt.Errorf("panic: %v", r)
+			}
+		}()
+		done <- initModel(m, c)
+	}()
+	select {
+	case e := <-done:
+		return e
+	case <-time.After(10 * time.Second):
+		return fmt.Errorf("did not return within 10 s")
+	}
+}
+
+func checkReinitProtein(c reinitCase) (o pbt.Outcome, err error) {
+	name := c.A.Model
+	m, e := buildModel(c.A)
+	if e != nil {
+		return o, fmt.Errorf("%s: model initialisation fails on valid parameters: %v", name, e)
+	}
+	firstA, err := checkOn(m, c.A, &o)
+	if err != nil {
+		return o, fmt.Errorf("round 1 (first frequencies): %v", err)
+	}
+	same := !pbt.Known(keyProtReinit)
+	next := func(p mCase) (models.Model, error) {
+		if same {
+			return m, initGuarded(m, p)
+		}
+		return buildModel(p) // another object of the same matrix, the first one stays alive
+	}
+	what := "the same model object re-initialised"
+	if !same {
+		o.Exclude(keyProtReinit)
+		what = "a second model object of the same matrix"
+	}
+	mb, e := next(c.B)
+	if e != nil {
+		return o, fmt.Errorf("%s: InitModel with the second frequencies (%s): %v", name, what, e)
+	}
+	if _, err = checkOn(mb, c.B, &o); err != nil {
+		return o, fmt.Errorf("round 2 (%s, second frequencies): %v", what, err)
+	}
+	ma, e := next(c.A)
+	if e != nil {
+		return o, fmt.Errorf("%s: InitModel with the first frequencies again (%s): %v", name, what, e)
+	}
+	for k, t := range c.A.Ts {
+		p, e := observe(ma, t)
+		if e != nil {
+			return o, fmt.Errorf("%s: NewPij fails: %v", name, e)
+		}
+		if d, at := maxDiff(p, firstA[k]); d > 1e-12 {
+			return o, fmt.Errorf("%s: back to the first frequencies (%s), t=%g: P[%d][%d] = %.15g, it was %.15g the first time", name, what, t, at[0], at[1], p[at[0]][at[1]], firstA[k][at[0]][at[1]])
+		}
+	}
+	// the first object, untouched in the second case, still gives its matrices
+	if !same {
+		for k, t := range c.A.Ts {
+			p, e := observe(m, t)
+			if e != nil {
+				return o, fmt.Errorf("%s: NewPij fails: %v", name, e)
+			}
+			if d, at := maxDiff(p, firstA[k]); d > 1e-12 {
+				return o, fmt.Errorf("%s: after two other objects of the same matrix were initialised, the first object gives P(%g)[%d][%d] = %.15g, it was %.15g", name, t, at[0], at[1], p[at[0]][at[1]], firstA[k][at[0]][at[1]])
+			}
+		}
+	}
+	o.NonTrivial = !sameParams(c.A, c.B)
+	o.Class("protein: %s", what)
+	return o, nil
+}
+
+// TestKnownProteinReinit: minimal reproduction of the finding protein-reinit: LG, InitModel(nil) twice
+func TestKnownProteinReinit(t *testing.T) {
+	c := mCase{Model: "lg", Ts: []float64{0.5}, Split: 0.5, Regime: "model-frequencies"}
+	m, e := buildModel(c)
+	if e != nil {
+		pbt.Fail(t, c, "lg: InitModel fails: %v", e)
+		return
+	}
+	var o pbt.Outcome
+	err := initGuarded(m, c)
+	if err == nil {
+		_, err = pbt.Eval(c, func(c mCase) (pbt.Outcome, error) {
+			_, e := checkOn(m, c, &o)
+			return o, e
+		})
+	}
+	o.Classes = append(o.Classes, fmt.Sprintf("reproduction %s fails=%v", keyProtReinit, err != nil))
+	pbt.Note(t, c, o)
+	if err != nil {
+		what := fmt.Sprintf("a ProtModel initialised twice (LG, InitModel(nil); InitModel(nil)) does not give a transition matrix: %v", err)
+		if pbt.Known(keyProtReinit) {
+			pbt.KnownFinding(t, keyProtReinit, what)
+		} else {
+			pbt.Fail(t, c, "%s", what)
+		}
+	}
+	pbt.Complete(t)
+}
+
+func TestReinit(t *testing.T) { pbt.Run(t, genReinit, checkReinit) }
 
 // ---- the corners of the parameter domain, enumerated -------------------------------------------------
 
